@@ -225,3 +225,48 @@ Theorem C09_roundtrip_nonvacuous :
   ex_call <> [] /\ Forall (fun p => is_arg (fst p) /\ covered ex_inp (fst p) (snd p)) ex_call /\ fits ex_call = true.
 Proof. exact ex_call_covered. Qed.
 Print Assumptions C09_roundtrip_nonvacuous.
+
+(* ---------------------------------------------------------------- several specs on one function *)
+(* Several -A / -R options can match one function; add_arg_spec merges only specs of the same class, so e.g. an
+   integer-class and a float-class return value spec coexist.  The writer records ALL of them, and the reader has to
+   consume all of them.  C09_framing / C09_stream_resync quantify over arbitrary spec lists (the return value side is
+   a list like the argument side); here they are restated without the technical "modelled" hypothesis: every spec
+   list except one containing an x87 long double return value. *)
+Theorem C09_framing_any_specs : forall fill inp is_ret specs bg p rest,
+  Forall wf_spec specs -> Forall not_x87_ret specs ->
+  payload (run fill inp is_ret specs) = Some p ->
+  read_args is_ret specs (fit (ALIGN (lenN p) 8) bg p ++ rest) = Some (p, rest).
+Proof. exact framing_all. Qed.
+Print Assumptions C09_framing_any_specs.
+
+Theorem C09_stream_resync_any_specs : forall k specs_of bg fill inp t ty depth addr pl rest,
+  t < 2 ^ 64 -> ty < 4 -> depth < 1024 -> addr < 2 ^ 48 ->
+  Forall wf_spec (specs_of addr) -> Forall not_x87_ret (specs_of addr) ->
+  (pl = None \/ pl = payload (run fill inp (ty =? UFTRACE_EXIT) (specs_of addr))) ->
+  decode_stream (S k) specs_of (enc_rec bg t ty depth addr pl ++ rest) =
+  {| d_time := t; d_type := ty; d_depth := depth; d_addr := addr; d_args := pl |} :: decode_stream k specs_of rest.
+Proof. exact stream_resync_all. Qed.
+Print Assumptions C09_stream_resync_any_specs.
+
+(* `-R f@retval/f -R '^f$@retval'`: both values are recorded (16 bytes), both are consumed, the record behind the
+   payload is decoded *)
+Theorem C09_two_retvals_recorded_and_consumed :
+  payload (run 0 two_rets_inp true two_rets) = Some (le_bytes 8 0x4004000000000000 ++ le_bytes 8 42) /\
+  read_args true two_rets (le_bytes 8 0x4004000000000000 ++ le_bytes 8 42 ++ next_rec) =
+    Some (le_bytes 8 0x4004000000000000 ++ le_bytes 8 42, next_rec) /\
+  decode_stream 2 (fun _ => two_rets)
+    (enc_rec 0 1000 UFTRACE_EXIT 1 0x401000 (payload (run 0 two_rets_inp true two_rets)) ++ next_rec) =
+  [ {| d_time := 1000; d_type := UFTRACE_EXIT; d_depth := 1; d_addr := 0x401000;
+       d_args := Some (le_bytes 8 0x4004000000000000 ++ le_bytes 8 42) |};
+    {| d_time := 2000; d_type := UFTRACE_ENTRY; d_depth := 1; d_addr := 0x401000; d_args := None |} ].
+Proof. exact two_rets_recorded. Qed.
+Print Assumptions C09_two_retvals_recorded_and_consumed.
+
+(* a reader that stops after the first return value spec (get_argspec_string may, read_task_args may not) leaves
+   the second value in the stream and the next record header is read 8 bytes early: its magic check fails *)
+Theorem C09_first_retval_only_reader_refuted :
+  let p := le_bytes 8 0x4004000000000000 ++ le_bytes 8 42 in
+  read_args_loop_first two_rets [] (p ++ next_rec) = Some (le_bytes 8 0x4004000000000000, le_bytes 8 42 ++ next_rec) /\
+  (of_le (takeN 8 (dropN 8 (le_bytes 8 42 ++ next_rec))) / 8) mod 8 <> RECORD_MAGIC.
+Proof. exact first_retval_reader_refuted. Qed.
+Print Assumptions C09_first_retval_only_reader_refuted.
